@@ -139,6 +139,7 @@ def run(ck):
     runs += unusual_context_oracle(ck, report)
     runs += feedback_oracle(ck, report, rng, 12 if thorough else 4)
     runs += after_failed_run_oracle(ck)
+    runs += shared_orchestrator_overlap_oracle(ck, 90 if thorough else 40)
     bad, errs = tl.evaluate("C10", texts)
     for k, rc, out in errs:
         ck.corr_problem("correspondence shard %d did not evaluate (rc=%s)" % (k, rc), out)
@@ -227,6 +228,91 @@ def unusual_context_oracle(ck, report):
                               {"kind": "unusual-context", "scenario": name, "detail": detail, "untraced": list(plain), "traced": list(traced)})
                 break
     return n + len(scen)
+
+
+def shared_orchestrator_overlap_oracle(ck, budget):
+    """Direct oracle: two traced Pipelines share ONE orchestrator, each run carries its own launch metadata.  Run A is suspended
+    at each source line of the orchestrator module in turn while run B (another thread) executes completely.  The normalised
+    trace of A -- its pipeline_start with A's launch id, index and context in particular -- must be what A writes alone."""
+    import os, shutil, sys, tempfile, threading
+    from semantiva.context_processors import ContextType
+    from semantiva.execution.orchestrator import orchestrator as omod
+    from semantiva.execution.orchestrator.orchestrator import LocalSemantivaOrchestrator
+    from semantiva.pipeline import Payload, Pipeline
+    from semantiva.trace.drivers.jsonl import JsonlTraceDriver
+    from semantiva.trace.runtime import TraceContext
+    pg.setup_impl()
+    cfg_a = [{"processor": "FloatValueDataSource", "parameters": {"value": 2.0}}, {"processor": "FloatMultiplyOperation", "parameters": {"factor": 3.0}}]
+    cfg_b = [{"processor": "FloatValueDataSource", "parameters": {"value": 5.0}}, {"processor": "FloatAddOperation", "parameters": {"addend": 1.0}}]
+    mod_file = omod.__file__
+
+    def meta(tag, idx):
+        t = TraceContext()
+        t.set_run_space_fk(spec_id=tag[0] * 64, launch_id="launch-" + tag, attempt=1, inputs_id=None)
+        return {"trace_context": t, "run_space_index": idx, "run_space_context": {"who": tag}}
+
+    def read(path):
+        return [json.loads(l) for l in open(path, encoding="utf-8").read().splitlines() if l.strip()]
+    d = tempfile.mkdtemp(prefix="verif_c10so_")
+    n = 0
+    try:
+        def one(k, tag):
+            orch = LocalSemantivaOrchestrator()
+            pa, pb = os.path.join(d, "a_%s.jsonl" % tag), os.path.join(d, "b_%s.jsonl" % tag)
+            pipe_a = Pipeline([dict(c) for c in cfg_a], trace=JsonlTraceDriver(pa, detail="hash"), orchestrator=orch)
+            pipe_b = Pipeline([dict(c) for c in cfg_b], trace=JsonlTraceDriver(pb, detail="hash"), orchestrator=orch)
+            count, thr = [0], [None]
+
+            def run_b():
+                try:
+                    pipe_b.set_run_metadata(meta("B", 7))
+                    pipe_b.process(Payload(None, ContextType({})))
+                except Exception:  # noqa
+                    pass
+
+            def local(fr, ev, a):
+                if ev == "line":
+                    count[0] += 1
+                    if count[0] == k:
+                        thr[0] = threading.Thread(target=run_b, daemon=True)
+                        thr[0].start()
+                        thr[0].join(10)
+                return local
+
+            def tracer(frame, event, arg):
+                return local if frame.f_code.co_filename == mod_file else None
+            pipe_a.set_run_metadata(meta("A", 0))
+            sys.settrace(tracer)
+            try:
+                try:
+                    out = pipe_a.process(Payload(None, ContextType({})))
+                    res = ("returned", out.data.data)
+                except Exception as ex:  # noqa
+                    res = ("raised", type(ex).__name__)
+            finally:
+                sys.settrace(None)
+            if thr[0] is not None:
+                thr[0].join(10)
+            return count[0], res, read(pa) if os.path.exists(pa) else []
+        total, res0, alone = one(-1, "alone")
+        step = max(1, total // max(1, budget))
+        for k in range(1, total + 1, step):
+            _, res, recs = one(k, "k%d" % k)
+            n += 2
+            diff = tl.first_diff(tl.normalise(recs), tl.normalise(alone))
+            if res != res0 or diff is not None:
+                st = recs[0] if recs else {}
+                ck.fail_input("C10:trace-differs:overlapping-run-on-a-shared-orchestrator:%s" % (tl.generic_path(diff) if diff else "outcome"),
+                              "run A (launch-A, index 0) is suspended at its %d-th source line inside orchestrator.py while run B (launch-B, index 7) of another "
+                              "Pipeline sharing the orchestrator executes: A's outcome %s (alone %s), its normalised trace differs at %s; A's pipeline_start carries "
+                              "launch id %r index %r" % (k, res, res0, diff, st.get("run_space_launch_id"), st.get("run_space_index")),
+                              {"kind": "shared-orchestrator-overlap", "line_event": k})
+                break
+    except Exception as ex:  # noqa
+        ck.corr_problem("shared-orchestrator overlap oracle could not run", repr(ex)[:300])
+    finally:
+        shutil.rmtree(d, ignore_errors=True)
+    return n
 
 
 def after_failed_run_oracle(ck):
